@@ -409,7 +409,8 @@ XTypeReject ==
 \* parts of the transport envelope (lib/Values.tla) this part does not cover yet: attributes Required in the HTTP mapping only
 \* (mode "treq"), optional / defaulted payload attributes behind a path parameter, map-valued query parameters, MapParams(),
 \* and the messages no generated encoder writes (value shape "nofield")
-XBeyond(x) == x.mode \notin Modes \/ (x.loc = "path" /\ x.mode # "required") \/ (x.nest \in QueryMapNests /\ x.loc = "query")
+XBeyond(x) == (x.mode = "default" /\ x.nest \notin {"direct", "alias"})         \* a Default on a list / map attribute
+              \/ x.mode \notin Modes \/ (x.loc = "path" /\ x.mode # "required") \/ (x.nest \in QueryMapNests /\ x.loc = "query")
 XAttrsAll == {x \in AttrSpace : x.nest \in XNests /\ ~XBeyond(x)}
 XAttrs == XAttrsAll
 Idle == /\ pc = "encode" /\ wire = <<>> /\ delivered = <<>> /\ invoked = FALSE /\ status = 0 /\ errname = "none"
